@@ -482,22 +482,11 @@ def run(chk) -> None:
         for k in rnd.sample(range(total + 1), 3 if quick else 8):
             jobs2.append({"hi": hi, "hist": hists[hi], "kill": k, "mode": "kill2", "schema_opt": False,
                           "hist2": None})  # hist2 filled in below, after asking the model which schema exists
-    # ask the model about phase 1 of the two-phase jobs to know whether S1 / the table exist
-    two = [j for j in jobs2 if j["mode"] == "kill2"]
-    # phase-1 address needs the real log: approximate with absolute k on the model side (model and code agree on
-    # total call counts unless a violation is reported by stage 1 anyway)
-    if two:
-        reps = common.batch(["\t".join(["crash", "run", ";".join(j["hist"]), str(j["kill"])]) for j in two])
-        for j, rep in zip(two, reps):
-            if "impl" not in rep:
-                raise common.Infra(f"driver: {rep}")
-            mid = _canon_model(rep["impl"])
-            have_s1 = 1 in mid["schemas"]
-            tids = [t[0] for t in mid["tables"]]
-            h2 = ["N1" + ("0" if have_s1 else "1") + ".1"]
-            nt = 5
-            h2 += [f"T{nt}.2.6", f"i{nt}.1.1"] + ([f"i{tids[0]}.4.44"] if tids else [])
-            j["hist2"] = h2
+    # the second process: connect (creates the schema iff the first process did not leave it — decided by the model from the
+    # first process's durable calls, not from call counts), a new table with comment and length, an insert
+    for j in jobs2:
+        if j["mode"] == "kill2":
+            j["hist2"] = ["N11.1", "T5.2.6", "i5.1.1"]
             j["kill2"] = None
     res2_flat = [r for shard in common.shard_map(_worker, common.chunks(jobs2, 16)) for r in shard]
     order2 = [j for shard in common.chunks(jobs2, 16) for j in shard]
